@@ -408,6 +408,15 @@ func (g *Gen) fishmen() []int {
 	return out
 }
 
+func containsStr(l []string, x string) bool {
+	for _, y := range l {
+		if y == x {
+			return true
+		}
+	}
+	return false
+}
+
 func (g *Gen) acctIndex(addr string) int {
 	for i, a := range g.W.C.Accounts {
 		if a.Addr.String() == addr {
@@ -1050,8 +1059,18 @@ func (g *Gen) lifecycleTx() Op {
 	case c < 30:
 		rop := Op{K: "renew", Creator: gw, Provider: gw + 1, Signer: o + 1, Owner: o + 1, Duration: []uint64{3600, 3600, 7200, 14400, 4000}[r.Intn(5)], Timeout: 100, Data: []string{m.DataId}}
 		for k := 0; k < r.Intn(3); k++ {
-			// more ids in the same signed request, possibly models of other owners
-			rop.Data = append(rop.Data, li.metas[r.Intn(len(li.metas))].DataId)
+			// more ids in the same signed request: mostly other models of the same owner (several top-ups of one provider
+			// in one message), possibly models of other owners
+			x := li.metas[r.Intn(len(li.metas))]
+			if r.Chance(70) {
+				for _, y := range li.metas {
+					if y.Owner == m.Owner && y.DataId != m.DataId && !containsStr(rop.Data, y.DataId) {
+						x = y
+						break
+					}
+				}
+			}
+			rop.Data = append(rop.Data, x.DataId)
 		}
 		return rop
 	case c < 42:
@@ -1219,6 +1238,15 @@ func (g *Gen) pendingTx() Op {
 		return op
 	case c < 42 && len(pend) > 0:
 		o := pend[r.Intn(len(pend))]
+		if r.Chance(15) {
+			// Ready again for an order that has already been handed to providers (a retry after a lost response)
+			for _, x := range open {
+				if x.Status == ordertypes.OrderDataReady {
+					o = x
+					break
+				}
+			}
+		}
 		p := g.acctIndex(o.Provider)
 		op := Op{K: "ready", Creator: p, Provider: p + 1, OrderId: o.Id}
 		switch r.Intn(9) {
